@@ -296,4 +296,40 @@ def c13_e(ctx: Ctx):
     return res
 
 
-RULES = [c13_a, c13_b, c13_c, c13_d, c13_e]
+@rule("C13-f")
+def c13_f(ctx: Ctx):
+    """The schema compatibility gate runs before anything is modified."""
+    R = "C13-f"
+    fi = ctx.fn(SP)
+    cfg = ctx.cfg(fi)
+    out = []
+    raises = [n for n in cfg.stmt_nodes() if isinstance(n.ast, ast.Raise) and n.ast.exc is not None
+              and (dotted(n.ast.exc.func if isinstance(n.ast.exc, ast.Call) else n.ast.exc) or "").endswith("SchemaSyncConflict")]
+    if not raises:
+        return [ctx.viol(R, fi, fi.node, "sync_projects never raises SchemaSyncConflict: check_schema has no effect")]
+    muts = set()
+    for n in cfg.stmt_nodes():
+        for sub in _own(n.ast):
+            for c in walk_no_nested(sub):
+                if isinstance(c, ast.Call):
+                    nm = c.func.attr if isinstance(c.func, ast.Attribute) else (c.func.id if isinstance(c.func, ast.Name) else "")
+                    if nm in ("create_doc_backup", "doc_sync", "_clone_or_sync", "imap", "map", "clone", "sync_jobs"):
+                        muts.add(n.id)
+    after = cfg.reachable(muts, kinds="n")
+    for r in raises:
+        facts = common.facts_at(ctx, fi, r.ast, "n")
+        if r.id in after:
+            out.append(ctx.viol(R, fi, r.ast, "SchemaSyncConflict can be raised after documents / jobs were already synchronised"))
+        elif ("check_schema", True) in facts:
+            out.append(ctx.ok(R, fi, r.ast, "with check_schema the schema gate raises before any document or job is touched"))
+        else:
+            out.append(ctx.inc(R, fi, r.ast, f"schema gate facts: {sorted(facts)}"))
+    d = fi.default_of("check_schema")
+    if d is not None and ctx.fold(d, fi) is True:
+        out.append(ctx.ok(R, fi, fi.node, "check_schema defaults to True", construct=SP + "|default:check_schema"))
+    else:
+        out.append(ctx.viol(R, fi, fi.node, "check_schema does not default to True", construct=SP + "|default:check_schema"))
+    return out
+
+
+RULES = [c13_a, c13_b, c13_c, c13_d, c13_e, c13_f]
